@@ -14,6 +14,7 @@ import (
 	proto4 "go.sia.tech/core/rhp/v4"
 	"go.sia.tech/core/types"
 	rhp4 "go.sia.tech/coreutils/rhp/v4"
+	"verifharness/hx"
 )
 
 // ---------------------------------------------------------------- sectors
@@ -1279,6 +1280,69 @@ func (a *Adapter) Reset(ids []int, capSectors int) error {
 		return fmt.Errorf("reset: %w", err)
 	}
 	a.K.Rev = rev
+	return nil
+}
+
+// bump returns the current revision with the revision number raised by one, signed by both
+// parties (payouts untouched): what the harness hands to the Contractor when it installs state.
+func (a *Adapter) bump() (types.V2FileContract, error) {
+	st, err := a.E.State(a.K.ID)
+	if err != nil {
+		return types.V2FileContract{}, err
+	}
+	rev := st.Revision
+	rev.RevisionNumber++
+	h := a.E.CM.TipState().ContractSigHash(rev)
+	rev.RenterSignature = a.K.RenterKey.SignHash(h)
+	rev.HostSignature = a.E.HostKey.SignHash(h)
+	return rev, nil
+}
+
+// InstallLedger puts account / pool balances and attachments in place directly through the
+// Contractor interface (materialisation of a spec ledger state for Leg R).
+func (a *Adapter) InstallLedger(want SpecState) error {
+	if a.E.Stub != nil {
+		a.E.Stub.arm(false)
+		defer a.E.Stub.arm(true)
+	}
+	var accs, pools []proto4.AccountDeposit
+	for _, name := range hx.SortedKeys(want.Acct) {
+		if n := want.Acct[name]; n > 0 {
+			accs = append(accs, proto4.AccountDeposit{Account: a.Acc(name), Amount: Units(uint64(n))})
+		}
+	}
+	for _, name := range want.Pex {
+		pools = append(pools, proto4.AccountDeposit{Account: a.Acc(name), Amount: Units(uint64(want.Pool[name]))})
+	}
+	if len(accs) > 0 {
+		rev, err := a.bump()
+		if err != nil {
+			return err
+		}
+		if _, err := a.E.C.CreditAccountsWithContract(accs, a.K.ID, rev, proto4.Usage{}); err != nil {
+			return err
+		}
+	}
+	if len(pools) > 0 {
+		rev, err := a.bump()
+		if err != nil {
+			return err
+		}
+		if _, err := a.E.C.CreditPoolsWithContract(pools, a.K.ID, rev, proto4.Usage{}); err != nil {
+			return err
+		}
+	}
+	for _, name := range hx.SortedKeys(want.Att) {
+		var as []proto4.PoolAttachment
+		for _, p := range want.Att[name] {
+			as = append(as, proto4.PoolAttachment{Account: a.Acc(name), Pool: a.Acc(p)})
+		}
+		if len(as) > 0 {
+			if err := a.E.C.AttachPools(as); err != nil {
+				return err
+			}
+		}
+	}
 	return nil
 }
 
